@@ -60,6 +60,8 @@ TSpec == TInit /\ [][TNext]_<<l, vars>>
 
 Diag(e) ==
   IF e.ev = "topn" THEN LET b == FirstBadCase(e.cases, 1) IN [why |-> "TopNComputer differs from the TopN machine", case |-> e.cases[b]]
+  ELSE IF e.ev = "error" THEN [why |-> "search returned an error", ev |-> e.ev, q |-> e.q, key |-> e.key, err |-> e.err]
+  ELSE IF e.ev = "panic" THEN [why |-> "search panicked", ev |-> e.ev, q |-> e.q, key |-> e.key, err |-> e.msg]
   ELSE IF e.ev # "topk" THEN [why |-> "unknown event", ev |-> e.ev]
   ELSE IF ~CertOK(e.cmp, e.all, e.sorted) THEN [why |-> "certificate: sorted is not the ordered permutation of the exhaustive list (tool problem)", q |-> e.q]
   ELSE LET b == FirstBadObs(e, 1)  o == e.obs[b] IN
